@@ -5,9 +5,9 @@ use trustfall_core::ir::FieldValue;
 
 use super::schema_gen::{EdgeDef, GenSchema, instances_of};
 use super::{Ty, find_call, params_sexp};
-use crate::rng::Rng;
-use crate::sexp::{Sexp, hex};
-use crate::values::{boundary_floats, boundary_ints, sexp_to_value, value_to_sexp};
+use tfharness::rng::Rng;
+use tfharness::sexp::{Sexp, hex};
+use tfharness::values::{boundary_floats, boundary_ints, sexp_to_value, value_to_sexp};
 
 #[derive(Debug, Clone, PartialEq)]
 pub struct VertexData {
@@ -114,7 +114,7 @@ pub fn gen_dataset(rng: &mut Rng, schema: &GenSchema, knobs: &DataKnobs) -> Data
     let mut vertices = vec![];
     let mut next_id = 0u32;
     for t in schema.concrete_types() {
-        let n = if rng.chance(1, 12) { 0 } else { 1 + rng.below(knobs.max_per_type) };
+        let n = if rng.chance(1, 16) { 0 } else { 1 + rng.below(knobs.max_per_type) };
         for _ in 0..n {
             let props = t
                 .props
@@ -140,15 +140,15 @@ pub fn gen_dataset(rng: &mut Rng, schema: &GenSchema, knobs: &DataKnobs) -> Data
         }
         if e.is_list() {
             // duplicates allowed; non-null list types may still be empty
-            let n = match rng.below(6) {
+            let n = match rng.below(8) {
                 0 => 0,
                 1 | 2 => 1,
-                3 => 2,
-                4 => 3,
+                3 | 4 => 2,
+                5 | 6 => 3,
                 _ => 4,
             };
             (0..n).map(|_| cands[rng.below(cands.len())]).collect()
-        } else if rng.chance(2, 3) {
+        } else if rng.chance(3, 4) {
             vec![cands[rng.below(cands.len())]]
         } else {
             vec![]
@@ -165,7 +165,7 @@ pub fn gen_dataset(rng: &mut Rng, schema: &GenSchema, knobs: &DataKnobs) -> Data
     for r in &schema.roots {
         let cands = ids_of(&r.target);
         let s = if r.is_list() {
-            match rng.below(5) {
+            match rng.below(8) {
                 0 => pick_nbrs(rng, r),
                 1 => cands.iter().rev().copied().collect(),
                 _ => cands,
@@ -215,7 +215,7 @@ impl Dataset {
     /// `(data (vertices …) (adj …) (starts …) (rx …))` for one query (parameter tuples and regex
     /// patterns come from `view`).
     pub fn to_sexp(&self, schema: &GenSchema, view: &DataView) -> Sexp {
-        let a = Sexp::atom;
+        use super::atom as a;
         let vertices = Sexp::call(
             "vertices",
             self.vertices
